@@ -42,12 +42,12 @@ def handle (j : Json) : Json :=
     let sp := partsList j "sys_path"
     let names := strs j "names"
     jobj [("python", jopt jFound (pyImport fs sp names)),
-          ("jedi", jarr ((importModuleByNames (pyFind fs) sp names).map jFound))]
+          ("jedi", jarr ((importModuleByNames (pyFind fs) (fun _ => none) sp names).map jFound))]
   | "importer" =>
     let i := Importer.init (strs j "import_path") (nat j "level") (strs j "pkg") (optParts j "file")
       (partsOf (obj j "project"))
     jobj [("importer", jImporter i),
-          ("resolve_name", match resolveName (strs j "pkg") (nat j "level") (strs j "import_path") with
+          ("resolve_name", if nat j "level" = 0 then .null else match resolveName (strs j "pkg") (nat j "level") (strs j "import_path") with
             | .ok r => jarr (r.map jstr)
             | .error .noParentPackage => jstr "no-parent-package"
             | .error .beyondTopLevel => jstr "beyond-top-level")]
@@ -69,10 +69,27 @@ def handle (j : Json) : Json :=
       | .mod f => defs.contains (f, n)
       | .ns _ => false
     let level := nat j "level"
-    let pkg := strs j "pkg"
     let file := optParts j "file"
+    -- Script._get_module: the module's names come from transform_path_to_dotted, else ('__main__',)
+    let naming : Option (List String × Bool) :=
+      match j.getObjVal? "naming_sys_path", file with
+      | .ok (.arr a), some f =>
+        let (names, isPkg) := transformPathToDotted dottedSepFix pathSuffixes
+          (a.toList.map fun x => (asStr x).toList) f
+        names.map fun ns => (ns.map String.ofList, isPkg)
+      | _, _ => none
+    let pkg : List String :=
+      match naming with
+      | some (ns, isPkg) => if isPkg then ns else ns.dropLast
+      | none => strs j "pkg"
+    -- module_cache as seeded by Script._get_module
+    let cache : List String → Option Found := fun names =>
+      match naming, file with
+      | some (ns, isPkg), some f =>
+        if names = ns then some (if isPkg then Found.pkg f.dropLast else Found.mod f) else none
+      | _, _ => none
     let project := partsOf (obj j "project")
-    let follow := fun path => (Importer.init path level pkg file project).follow (pyFind fs) sp
+    let follow := fun path => (Importer.init path level pkg file project).follow (pyFind fs) cache sp
     let res : List Target :=
       match j.getObjVal? "from_name" with
       | .ok (.str n) =>
